@@ -74,6 +74,12 @@ Section ChunkFacts.
   Proof.
     intro H. apply (dec_chunks_encode_gen items [] 0 H). rewrite Nlen_nil. lia.
   Qed.
+
+  Lemma dec_chunks_encode_k items k :
+    k = length items ->
+    (forall x, In x items -> Nlen (enc x) = size /\ f (enc x) = x) ->
+    dec_chunks site size f k 0 (concat (map enc items)) = Ok items.
+  Proof. intros ->. apply dec_chunks_encode. Qed.
 End ChunkFacts.
 
 Lemma map_id {A} (l : list A) : map (fun x => x) l = l.
@@ -98,7 +104,7 @@ Proof. reflexivity. Qed.
 
 Lemma version_decode_encode v : wf_version v = true -> decode_version (encode_version v) = Ok v.
 Proof.
-  intro W. rewrite (encode_version_eq v W). unfold wf_version, two16 in W. split_and.
+  intro W. rewrite (encode_version_eq v W). unfold wf_version in W. split_and. unfold two16 in *.
   unfold decode_version.
   destruct (get4 (v_major v) (v_minor v) (v_patch v / 256 mod 256) (v_patch v mod 256))
     as (E0 & E1 & E2 & E3 & E4).
@@ -229,7 +235,7 @@ Qed.
 
 Lemma api_decode_encode a : wf_api a = true -> decode_api (encode_api a) = Ok a.
 Proof.
-  intro W. unfold wf_api, two32 in W. split_and. pose proof (api_has_widths a) as HW.
+  intro W. unfold wf_api in W. split_and. unfold two32 in *. pose proof (api_has_widths a) as HW.
   unfold decode_api, encode_api. field 0%nat.
   rewrite (sl_from_fields _ _ 1%nat 1002 4 HW) by reflexivity. cbn [bind nth].
   rewrite be_dec_enc by (rewrite pow256_4; lia). destruct a; reflexivity.
@@ -298,10 +304,10 @@ Lemma ghost_decode_encode g : wf_ghost g = true -> decode_ghost (encode_ghost g)
 Proof.
   intro W. pose proof (ghost_has_widths g W) as HW. pose proof (ghost_size g W) as HL.
   unfold wf_ghost in W. split_and. unfold two32, two64 in *.
+  unfold decode_ghost, encode_ghost in *.
   set (n := Nlen (g_prehashes g)) in *.
   assert (Ln : forall {A} (l : list A), Nlen l = n -> N.to_nat n = length l)
     by (intros A l <-; unfold Nlen; lia).
-  unfold decode_ghost, encode_ghost in *.
   field 0%nat. field 1%nat. rewrite be_dec_enc by (rewrite pow256_4; lia).
   match goal with HW : has_widths ?fs ?ws |- context [sl 903 ?a ?b (concat ?fs)] =>
     rewrite (sl_fields_rest fs ws 2%nat 903 a b HW) by (first [reflexivity | cbn [length]; lia]) end.
@@ -316,38 +322,38 @@ Proof.
     assumption. }
   clear HW.
   field 0%nat.
-  rewrite (Ln _ (g_prehashes g) eq_refl).
-  rewrite <- (map_id (g_prehashes g)) at 2.
-  rewrite (dec_chunks_encode 905 32 (fun x => x) (fun x => x))
-    by (intros x Hx; split; [apply arr_ok_len; eapply forallb_In; eauto|reflexivity]).
+  replace (dec_chunks 905 32 (fun x => x) (N.to_nat n) 0 (concat (g_prehashes g)))
+    with (dec_chunks 905 32 (fun x => x) (N.to_nat n) 0 (concat (map (fun x : list N => x) (g_prehashes g))))
+    by now rewrite map_id.
+  rewrite (dec_chunks_encode_k 905 32 (fun x => x) (fun x => x) (g_prehashes g) (N.to_nat n))
+    by (first [now (apply Ln; lia) |intros x Hx; split; [apply arr_ok_len; now apply (forallb_In (arr_ok 32) (g_prehashes g))|reflexivity]]).
   rewrite bind_Ok. cbv beta.
   field 1%nat.
-  rewrite (Ln _ (g_prev_hashes g)) by lia.
-  rewrite <- (map_id (g_prev_hashes g)) at 2.
-  rewrite (dec_chunks_encode 907 32 (fun x => x) (fun x => x))
-    by (intros x Hx; split; [apply arr_ok_len; eapply forallb_In; eauto|reflexivity]).
+  replace (dec_chunks 907 32 (fun x => x) (N.to_nat n) 0 (concat (g_prev_hashes g)))
+    with (dec_chunks 907 32 (fun x => x) (N.to_nat n) 0 (concat (map (fun x : list N => x) (g_prev_hashes g))))
+    by now rewrite map_id.
+  rewrite (dec_chunks_encode_k 907 32 (fun x => x) (fun x => x) (g_prev_hashes g) (N.to_nat n))
+    by (first [now (apply Ln; lia) |intros x Hx; split; [apply arr_ok_len; now apply (forallb_In (arr_ok 32) (g_prev_hashes g))|reflexivity]]).
   rewrite bind_Ok. cbv beta.
   field 2%nat.
-  rewrite (Ln _ (g_block_ids g)) by lia.
-  rewrite (dec_chunks_encode 909 8 be_dec (be_enc 8))
-    by (intros x Hx; split; [apply be_enc_Nlen|apply be_dec_enc; rewrite pow256_8;
-        pose proof (forallb_In _ _ x ltac:(eassumption) Hx) as Hlt; cbv beta in Hlt; lia]).
+  rewrite (dec_chunks_encode_k 909 8 be_dec (be_enc 8) (g_block_ids g) (N.to_nat n))
+    by (first [now (apply Ln; lia) |intros x Hx; split; [apply be_enc_Nlen|apply be_dec_enc; rewrite pow256_8;
+        match goal with H : forallb _ (g_block_ids g) = true |- _ =>
+          pose proof (forallb_In _ _ x H Hx) as Hlt end; cbv beta in Hlt; lia]]).
   rewrite bind_Ok. cbv beta.
   field 3%nat.
-  rewrite (Ln _ (g_block_ts g)) by lia.
-  rewrite (dec_chunks_encode 911 8 be_dec (be_enc 8))
-    by (intros x Hx; split; [apply be_enc_Nlen|apply be_dec_enc; rewrite pow256_8;
-        pose proof (forallb_In _ _ x ltac:(eassumption) Hx) as Hlt; cbv beta in Hlt; lia]).
+  rewrite (dec_chunks_encode_k 911 8 be_dec (be_enc 8) (g_block_ts g) (N.to_nat n))
+    by (first [now (apply Ln; lia) |intros x Hx; split; [apply be_enc_Nlen|apply be_dec_enc; rewrite pow256_8;
+        match goal with H : forallb _ (g_block_ts g) = true |- _ =>
+          pose proof (forallb_In _ _ x H Hx) as Hlt end; cbv beta in Hlt; lia]]).
   rewrite bind_Ok. cbv beta.
   field 4%nat.
-  rewrite (Ln _ (g_txs g)) by lia.
-  rewrite (dec_chunks_encode 913 1 nonzero_byte (fun b => be_enc 1 (b2n b)))
-    by (intros x Hx; split; [apply be_enc_Nlen|apply nonzero_b2n]).
+  rewrite (dec_chunks_encode_k 913 1 nonzero_byte (fun b => be_enc 1 (b2n b)) (g_txs g) (N.to_nat n))
+    by (first [now (apply Ln; lia) |intros x Hx; split; [apply be_enc_Nlen|apply nonzero_b2n]]).
   rewrite bind_Ok. cbv beta.
   field 5%nat.
-  rewrite (Ln _ (g_gts g)) by lia.
-  rewrite (dec_chunks_encode 915 1 nonzero_byte (fun b => be_enc 1 (b2n b)))
-    by (intros x Hx; split; [apply be_enc_Nlen|apply nonzero_b2n]).
+  rewrite (dec_chunks_encode_k 915 1 nonzero_byte (fun b => be_enc 1 (b2n b)) (g_gts g) (N.to_nat n))
+    by (first [now (apply Ln; lia) |intros x Hx; split; [apply be_enc_Nlen|apply nonzero_b2n]]).
   rewrite bind_Ok. cbv beta.
   destruct g; reflexivity.
 Qed.
@@ -358,4 +364,240 @@ Lemma ghost_canonical_refuted :
 Proof.
   exists (repeat 0 35 ++ [1] ++ repeat 0 80 ++ [7; 0]). eexists.
   split; [reflexivity|split; [vm_compute; reflexivity|vm_compute; discriminate]].
+Qed.
+
+(* ------------------------------------------------------------------ *)
+(* PeerService list (text)                                             *)
+(* ------------------------------------------------------------------ *)
+
+Lemma split_join c parts :
+  parts <> [] ->
+  (forall p, In p parts -> forallb (fun x => negb (x =? c)) p = true) ->
+  split_on c (join_with c parts) = parts.
+Proof.
+  induction parts as [|p rest IH]; intros Hne Hp; [contradiction|].
+  destruct rest as [|q rest].
+  - cbn [join_with]. apply split_on_no_sep. apply Hp. now left.
+  - change (join_with c (p :: q :: rest)) with (p ++ c :: join_with c (q :: rest)).
+    rewrite split_on_app by (apply Hp; now left).
+    rewrite IH; [reflexivity|discriminate|]. intros p' Hp'. apply Hp. now right.
+Qed.
+
+Lemma no_sep_bar l : no_sep l = true -> forallb (fun x => negb (x =? CH_BAR)) l = true.
+Proof. unfold no_sep. intro H. now apply andb_split in H as [H _]. Qed.
+
+Lemma no_sep_semi l : no_sep l = true -> forallb (fun x => negb (x =? CH_SEMI)) l = true.
+Proof. unfold no_sep. intro H. now apply andb_split in H as [_ H]. Qed.
+
+Lemma service_decode_encode s : wf_service s = true -> decode_service (encode_service s) = Ok s.
+Proof.
+  intro W. unfold wf_service in W. split_and.
+  unfold decode_service, encode_service.
+  rewrite split_on_app by now apply no_sep_bar.
+  rewrite split_on_app by now apply no_sep_bar.
+  rewrite split_on_no_sep by now apply no_sep_bar.
+  destruct s; reflexivity.
+Qed.
+
+Lemma encode_service_nonempty s : encode_service s <> [].
+Proof. unfold encode_service. destruct (sv_service s); discriminate. Qed.
+
+Lemma encode_service_no_semi s :
+  wf_service s = true -> forallb (fun x => negb (x =? CH_SEMI)) (encode_service s) = true.
+Proof.
+  intro W. unfold wf_service in W. split_and. unfold encode_service.
+  rewrite forallb_app. cbn [forallb]. rewrite forallb_app. cbn [forallb].
+  rewrite !no_sep_semi by assumption. reflexivity.
+Qed.
+
+Lemma service_list_decode_encode l :
+  forallb wf_service l = true -> decode_service_list (map encode_service l) = Ok l.
+Proof.
+  induction l as [|s l IH]; cbn [forallb map decode_service_list]; intro W; [reflexivity|].
+  apply andb_split in W as [Ws Wl].
+  destruct (encode_service s) eqn:E; [now apply encode_service_nonempty in E|].
+  rewrite <- E, (service_decode_encode s Ws), (IH Wl). reflexivity.
+Qed.
+
+Lemma encode_services_nil_inv l : encode_services l = [] -> l = [].
+Proof.
+  destruct l as [|s l]; [reflexivity|]. unfold encode_services. cbn [map join_with].
+  destruct (map encode_service l); intro H.
+  - now apply encode_service_nonempty in H.
+  - destruct (encode_service s) eqn:E; [now apply encode_service_nonempty in E|discriminate].
+Qed.
+
+Lemma services_decode_encode l : wf_services l = true -> decode_services (encode_services l) = Ok l.
+Proof.
+  intro W. unfold wf_services in W. apply andb_split in W as [Wl Wu].
+  unfold decode_services. destruct (Nlen (encode_services l) =? 0) eqn:E0.
+  - apply N.eqb_eq, Nlen_0, encode_services_nil_inv in E0. now subst l.
+  - rewrite Wu. cbn [negb].
+    destruct l as [|s l]; [discriminate|].
+    unfold encode_services. rewrite split_join.
+    + now apply service_list_decode_encode.
+    + discriminate.
+    + intros p Hp. apply in_map_iff in Hp as (x & <- & Hx).
+      apply encode_service_no_semi. eapply forallb_In; eauto.
+Qed.
+
+(* empty segments are skipped: not canonical *)
+Lemma services_canonical_refuted :
+  exists bs l, bytes_ok bs = true /\ decode_services bs = Ok l /\ encode_services l <> bs.
+Proof.
+  exists [59; 97; 124; 98; 124; 99]. eexists.
+  split; [reflexivity|split; [vm_compute; reflexivity|vm_compute; discriminate]].
+Qed.
+
+(* ------------------------------------------------------------------ *)
+(* HandshakeResponse                                                   *)
+(* ------------------------------------------------------------------ *)
+
+Notation hs_fields r :=
+  [ encode_version (hr_core_version r); encode_version (hr_wallet_version r); hr_pk r; hr_sig r;
+    hr_challenge r; be_enc 1 (if hr_is_lite r then 1 else 0); be_enc 4 (Nlen (hr_url r)); hr_url r;
+    encode_services (hr_services r) ] (only parsing).
+
+Notation hs_widths r :=
+  [4; 4; 33; 64; 32; 1; 4; Nlen (hr_url r); Nlen (encode_services (hr_services r))] (only parsing).
+
+Lemma hs_has_widths r : wf_hs_response r = true -> has_widths (hs_fields r) (hs_widths r).
+Proof.
+  intro W. unfold wf_hs_response in W. split_and.
+  repeat constructor; rewrite ?be_enc_Nlen; try reflexivity; now apply arr_ok_len.
+Qed.
+
+Lemma hs_response_size r : wf_hs_response r = true ->
+  Nlen (encode_hs_response r) = 142 + Nlen (hr_url r) + Nlen (encode_services (hr_services r)).
+Proof.
+  intro W. unfold encode_hs_response.
+  rewrite (has_widths_total _ _ (hs_has_widths r W)) by reflexivity. cbn [sumN]. lia.
+Qed.
+
+Lemma hs_response_decode_encode r :
+  wf_hs_response r = true -> decode_hs_response (encode_hs_response r) = Ok r.
+Proof.
+  intro W. pose proof (hs_has_widths r W) as HW. pose proof (hs_response_size r W) as HL.
+  unfold wf_hs_response in W. split_and. unfold two32 in *.
+  unfold decode_hs_response, HS_MIN_LEN. rewrite HL. unfold encode_hs_response in *.
+  replace (142 + Nlen (hr_url r) + Nlen (encode_services (hr_services r)) <? 142) with false by lia.
+  field 0%nat. rewrite version_decode_encode by assumption. rewrite bind_Ok. cbv beta.
+  field 1%nat. rewrite version_decode_encode by assumption. rewrite bind_Ok. cbv beta.
+  field 2%nat. field 3%nat. field 4%nat.
+  field_ix 5%nat.
+  field 6%nat. rewrite be_dec_enc by (rewrite pow256_4; lia).
+  (* url *)
+  assert (Hurl :
+    (if 0 <? Nlen (hr_url r)
+     then if 142 + Nlen (hr_url r) + Nlen (encode_services (hr_services r)) <? 142 + Nlen (hr_url r)
+          then Err
+          else do u <- sl 708 142 (142 + Nlen (hr_url r)) (concat (hs_fields r));
+               if utf8_valid u then Ok u else Err
+     else Ok []) = Ok (hr_url r)).
+  { destruct (0 <? Nlen (hr_url r)) eqn:EU.
+    - replace (142 + Nlen (hr_url r) + Nlen (encode_services (hr_services r)) <? 142 + Nlen (hr_url r))
+        with false by lia.
+      match goal with HW : has_widths ?fs ?ws |- context [sl ?site ?a ?b (concat ?fs)] =>
+        rewrite (sl_fields_x fs ws 7%nat site a b (hr_url r) HW) by field_side end.
+      rewrite bind_Ok. cbv beta.
+      match goal with H : utf8_valid (hr_url r) = true |- _ => now rewrite H end.
+    - f_equal. symmetry. apply Nlen_0. lia. }
+  rewrite Hurl, bind_Ok. cbv beta. clear Hurl.
+  (* services *)
+  assert (Hsvc :
+    (if 142 + Nlen (hr_url r) <? 142 + Nlen (hr_url r) + Nlen (encode_services (hr_services r))
+     then do sb <- sl_from 709 (142 + Nlen (hr_url r)) (concat (hs_fields r)); decode_services sb
+     else Ok []) = Ok (hr_services r)).
+  { destruct (142 + Nlen (hr_url r) <? 142 + Nlen (hr_url r) + Nlen (encode_services (hr_services r))) eqn:ES.
+    - match goal with HW : has_widths ?fs ?ws |- context [sl_from ?site ?a (concat ?fs)] =>
+        rewrite (sl_from_fields fs ws 8%nat site a HW) by field_side end.
+      rewrite bind_Ok. cbv beta. cbn [nth]. now apply services_decode_encode.
+    - f_equal. symmetry. apply encode_services_nil_inv, Nlen_0. lia. }
+  rewrite Hsvc, bind_Ok. cbv beta.
+  destruct r as [pk sg lite url ch sv wv cv]. cbn [hr_is_lite]. destruct lite; reflexivity.
+Qed.
+
+(* ------------------------------------------------------------------ *)
+(* Message                                                             *)
+(* ------------------------------------------------------------------ *)
+
+Lemma decode_message_cons k p :
+  decode_message (k :: p) = decode_message_body k p.
+Proof.
+  unfold decode_message. rewrite Nlen_cons. replace (1 + Nlen p =? 0) with false by lia.
+  change (k :: p) with ([k] ++ p).
+  pose proof (slice_app_here [k] p) as S1. change (Nlen [k]) with 1 in S1.
+  pose proof (slice_from_app [k] p) as S2. change (Nlen [k]) with 1 in S2.
+  unfold sl. rewrite S1. cbn [bind].
+  unfold sl_from. rewrite S2. cbn [bind].
+  now rewrite be_dec_1.
+Qed.
+
+(* evaluate the closed tag tests of decode_message_body *)
+Ltac tag_eval :=
+  repeat match goal with
+  | |- context [?a =? ?b] =>
+      let v := eval vm_compute in (a =? b) in
+      match v with
+      | true => change (a =? b) with true
+      | false => change (a =? b) with false
+      end; cbv iota
+  end.
+
+Lemma keylist_decode_encode l :
+  forallb (arr_ok 33) l = true ->
+  (if negb (Nlen (concat l) mod 33 =? 0) then Err
+   else do l' <- dec_chunks 508 33 (fun x => x) (N.to_nat (Nlen (concat l) / 33)) 0 (concat l);
+        Ok (MKeyListUpdate l')) = Ok (MKeyListUpdate l).
+Proof.
+  intro W. rewrite (Nlen_concat_const l 33 W).
+  rewrite N.mul_comm, N.mod_mul, N.div_mul by lia. cbn [negb].
+  replace (0 =? 0) with true by reflexivity. cbn [negb].
+  rewrite <- (map_id l) at 2.
+  rewrite (dec_chunks_encode_k 508 33 (fun x => x) (fun x => x) l).
+  - reflexivity.
+  - unfold Nlen. lia.
+  - intros x Hx. split; [|reflexivity]. apply arr_ok_len. eapply forallb_In; eauto.
+Qed.
+
+Lemma message_decode_encode m :
+  wf_message m = true -> decode_message (encode_message m) = Ok (message_after_wire m).
+Proof.
+  intro W. destruct m; cbn [wf_message] in W; unfold encode_message, message_type_value, message_after_wire; cbv iota;
+    match goal with |- context [be_enc 1 ?k] => change (be_enc 1 k) with [k] end;
+    cbn [app]; rewrite decode_message_cons; unfold decode_message_body; tag_eval.
+  - now rewrite hs_challenge_decode_encode.
+  - now rewrite hs_response_decode_encode.
+  - now rewrite block_decode_encode.
+  - now rewrite tx_decode_encode.
+  - now rewrite bc_request_decode_encode.
+  - (* BlockHeaderHash *)
+    split_and. unfold two64 in *.
+    assert (HW : has_widths [h; be_enc 8 id] [32; 8])
+      by (repeat constructor; rewrite ?be_enc_Nlen; try reflexivity; now apply arr_ok_len).
+    rewrite (has_widths_total _ _ HW) by reflexivity. cbn [sumN].
+    replace (32 + (8 + 0) =? 40) with true by reflexivity. cbn [negb].
+    field 0%nat. field 1%nat. now rewrite be_dec_enc by (rewrite pow256_8; lia).
+  - reflexivity.
+  - reflexivity.
+  - now rewrite services_decode_encode.
+  - now rewrite ghost_decode_encode.
+  - (* GhostChainRequest *)
+    split_and. unfold two64 in *.
+    assert (HW : has_widths [be_enc 8 id; h; f] [8; 32; 32])
+      by (repeat constructor; rewrite ?be_enc_Nlen; try reflexivity; now apply arr_ok_len).
+    rewrite (has_widths_total _ _ HW) by reflexivity. cbn [sumN].
+    replace (8 + (32 + (32 + 0)) =? 72) with true by reflexivity. cbn [negb].
+    field 0%nat. field 1%nat. field 2%nat. now rewrite be_dec_enc by (rewrite pow256_8; lia).
+  - now rewrite api_guarded_decode_encode.
+  - now rewrite api_guarded_decode_encode.
+  - now rewrite api_guarded_decode_encode.
+  - now apply keylist_decode_encode.
+Qed.
+
+(* the first byte is the type value *)
+Lemma message_first_byte m : exists p, encode_message m = message_type_value m :: p.
+Proof.
+  unfold encode_message. destruct m; cbn [message_type_value];
+    match goal with |- context [be_enc 1 ?k] => change (be_enc 1 k) with [k] end; cbn [app]; eauto.
 Qed.
